@@ -2,14 +2,14 @@
    (Offset.Save, saveToTmp inlined) by harness/gen (translator "saveproto") — do not edit.
    One entry per file-system call in execution order; None = an error of this call is logged/ignored and
    execution continues, Some cl = the function returns after the calls cl.
-   temp file: tmpName -> o.curOffsetsFile   |   o.getTmpPath() -> o.path *)
+   temp file: string(tmpWithRandom) -> o.curOffsetsFile   |   o.getTmpPath() -> o.path *)
 From Verif Require Import Base.Sx Model.FsCrash.
 
 Definition filed_save_protocol : protocol :=
-  [(OpOpen, Some []) (* offset.go:243 *);
-   (OpWrite, Some [OpRemove; OpClose]) (* offset.go:264 *);
-   (OpSync, Some [OpRemove; OpClose]) (* offset.go:270 *);
-   (OpRename, None) (* offset.go:276 *);
+  [(OpOpen, Some []) (* offset.go:251 *);
+   (OpWrite, Some [OpRemove; OpClose]) (* offset.go:299 *);
+   (OpSync, Some [OpRemove; OpClose]) (* offset.go:306 *);
+   (OpRename, None) (* offset.go:313 *);
    (OpClose, None) (* function end (deferred) *)].
 
 Definition generic_save_protocol : protocol :=
@@ -20,5 +20,5 @@ Definition generic_save_protocol : protocol :=
    (OpRename, Some []) (* offset.go:61 *)].
 
 (* offsetDB.save keeps o.mu (which guards the shared o.buf / o.jobsSnapshot) from before it builds the buffer
-   until after the rename: Lock stmt 1, defer Unlock stmt 2, Unlock stmt -1, first use of o.buf/snapshotJobs stmt 3, Rename stmt 12, 1 Lock / 1 Unlock calls *)
+   until after the rename: Lock stmt 1, defer Unlock stmt 2, Unlock stmt -1, first use of o.buf/snapshotJobs stmt 3, Rename stmt 16, 1 Lock / 1 Unlock calls *)
 Definition save_holds_mu_until_rename : bool := true.
